@@ -119,7 +119,7 @@ func (a Atom) Expression() clause.Expression {
 	case "like":
 		return clause.Like{Column: a.Col, Value: v}
 	case "isnull":
-		return clause.Eq{Column: a.Col, Value: nil}
+		return clause.Eq{Column: a.Col, Value: a.nullValue()}
 	case "inempty":
 		return clause.IN{Column: a.Col, Values: []interface{}{}}
 	case "in":
@@ -158,7 +158,7 @@ func (a Atom) MapValue() interface{} {
 	case "inempty":
 		return a.emptyList()
 	case "isnull":
-		return nil
+		return a.nullValue()
 	case "in":
 		if a.IsStr {
 			return a.SL
@@ -169,6 +169,15 @@ func (a Atom) MapValue() interface{} {
 		return a.S
 	}
 	return a.I
+}
+
+// nullValue: the Go value that says NULL for an IS NULL atom: nil, or (atoms with an odd id) a
+// driver.Valuer whose value is NULL
+func (a Atom) nullValue() interface{} {
+	if a.ID%2 == 1 {
+		return sql.NullString{}
+	}
+	return nil
 }
 
 // ---- boolean trees printed as raw SQL ----
